@@ -168,6 +168,13 @@ class FakeRepo:
 class ModelProjectRepo(ghist.ProjectRepo):
     """ProjectRepo for the fake repositories: standard build tags, DEPENDS = json {component: "X.Y.Z"}."""
 
+    # build tags that do not name a release line (build_<n>_master_success) take major.minor from this file
+    _SAVED_BUILD_NUM_SOURCES = ["VERSION"]
+
+    def _read_saved_build_num_from_file(self, blob, path):
+        major, minor = (int(x) for x in blob.data_stream.read().decode().strip().split("."))
+        return ghist.BuildNumData(major, minor, None)
+
     def read_components_from_file(self, v_file_path, blob):
         assert v_file_path == "DEPENDS"
         d = json.load(blob.data_stream)
@@ -593,7 +600,8 @@ def c07_version(comp, pin):
     """Version string of a component build: commit c carries build number 2c, and 2c+1 when it was built twice."""
     c = pin_commit(pin)
     maj = comp["major"][str(c)] if isinstance(comp["major"], dict) else comp["major"]
-    return f"{maj}.0.{2 * c + pin_rank(pin)}"
+    minor = comp["minors"][c - 1] if comp.get("minors") else 0     # "minors": VERSION file of each commit says maj.minor
+    return f"{maj}.{minor}.{2 * c + pin_rank(pin)}"
 
 
 def c07_versions(comp):
@@ -616,11 +624,18 @@ def c07_comp_spec(comp, name="lib"):
     for i, ps in enumerate(comp["parents"], start=1):
         maj = comp["major"][str(i)] if isinstance(comp["major"], dict) else comp["major"]
         tg = []
+        files = {}
+        if comp.get("minors"):
+            # tags that do not encode the version; major.minor is saved in the VERSION file of the built commit
+            files["VERSION"] = f"{maj}.{comp['minors'][i - 1]}"
+            mk = lambda n: f"build_{n}_master_success"   # noqa: E731
+        else:
+            mk = lambda n: tag_name(n, maj, 0)   # noqa: E731
         if i in tags:
-            tg.append(tag_name(2 * i, maj, 0))
+            tg.append(mk(2 * i))
             if i in two:
-                tg.append(tag_name(2 * i + 1, maj, 0))
-        commits.append([i, list(ps), c06_message(i, i in match), tg, {}]
+                tg.append(mk(2 * i + 1))
+        commits.append([i, list(ps), c06_message(i, i in match), tg, files]
                        + ([comp["levels"][i - 1] * C07_LEVEL] if comp.get("levels") else []))
     return {"name": name, "commits": commits, "branches": [list(b) for b in comp["heads"]]}
 
